@@ -105,10 +105,25 @@ def model_case(case_py, drifts, tres):
         else:
             seen_f = True; nfex += 1
     samples = []
-    for r in nbgh:
+    neigh = case_py.get('neigh', [0])
+    cont = neigh[0] == 1 and len(neigh) > 4 and neigh[4] != [] and dbin['verr']
+    for i, r in enumerate(nbgh):
+        verr = [dy(dbin['verr'][v][r]) for v in range(nvar)] if dbin['verr'] else []
+        if cont:
+            # continuous moving neighbourhood (KrigingSystem::_lhsCalcul): the measurement-error variance of the diagonal term is
+            # REPLACED by C_vv(0) x ((d - dc) / (1 - d))^2, d = distance to the target normalised by the radius, dc = the threshold
+            dc = float(undy(neigh[4])); rad = float(undy(neigh[3]))
+            # the neighbourhood distance (BiTargetCheckDistance built without coefficients) is the HORIZONTAL distance: first two coordinates
+            dd = [float(dbin['coords'][d][r]) - float(dbout['coords'][d][it]) for d in range(min(ndim, 2))]
+            dist = math.sqrt(sum(x * x for x in dd)) / rad
+            mult = 0.0
+            if dist > dc:
+                if abs(1. - dist) < 1e-4: dist = 1. - 1e-4
+                mult = ((dist - dc) / (1. - dist)) ** 2
+            verr = [dy(Fraction(float(undy(tres['clhs'][i][i][v][v])) * mult)) for v in range(nvar)]
         samples.append([[dy(dbin['coords'][d][r]) for d in range(ndim)],
                         [dy(dbin['z'][v][r]) for v in range(nvar)],
-                        [dy(dbin['verr'][v][r]) for v in range(nvar)] if dbin['verr'] else [],
+                        verr,
                         [dy(dbin['fext'][f][r]) for f in range(len(dbin['fext']))]])
     tc = [dy(dbout['coords'][d][it]) for d in range(ndim)]
     tf = [dy(dbout['fext'][f][it]) for f in range(len(dbout.get('fext', [])))]
@@ -122,7 +137,8 @@ def parse_harness(res):
     for t in per:
         it, err, nbgh, nred, flag, lhs, rhs, wgt, zam, var0, est, std, varz, clhs, crhs, c00 = t[:16]
         cvv = t[16] if len(t) > 16 else []
-        out.append({'it': it, 'err': err, 'nbgh': nbgh, 'nred': nred, 'flag': flag, 'lhs': lhs, 'rhs': rhs, 'wgt': wgt,
+        alone = t[17] if len(t) > 17 else None
+        out.append({'alone': alone, 'it': it, 'err': err, 'nbgh': nbgh, 'nred': nred, 'flag': flag, 'lhs': lhs, 'rhs': rhs, 'wgt': wgt,
                     'zam': zam, 'var0': var0, 'est': est, 'std': std, 'varz': varz, 'clhs': clhs, 'crhs': crhs, 'c00': c00, 'cvv': cvv})
     return drifts, ok, out
 
